@@ -108,6 +108,7 @@ WriteErrs(e) ==
      F("C09.lopar.refuses_lcfrs", (e.res = "exc") <=> ~IsContextFree(gram)) \cup
      (IF e.res = "ok" THEN
         F("C09.lopar.gram", DecodeLoparGram(e.files.gram) = NormCFBag(G)) \cup
+        FileCounts(DecodeLoparGram(e.files.gram)) \cup
         F("C09.lex.counts", LexWF(e.files.lex) /\ DecodeLex(e.files.lex) = lex) \cup
         F("C09.lopar.start", DecodePairs(e.files.start) = StartSyms(G)) \cup
         F("C09.lopar.oc", DecodePairs(e.files.oc) = OcBag(lex, SetOfSeq(e.caps), FALSE)) \cup
